@@ -45,6 +45,7 @@ const (
 	v06CW v06OpKind = iota // client writes n bytes
 	v06TW                  // target writes n bytes
 	v06Sync                // wait until both directions delivered everything sent so far
+	v06DL                  // client-side deadline: n&1 = SetDeadline instead of SetReadDeadline, n&2 = shortly ahead instead of in the past; cleared after a Read timed out
 )
 
 type v06Op struct {
@@ -58,10 +59,14 @@ func (o v06Op) String() string {
 		return fmt.Sprintf("cw%d", o.n)
 	case v06TW:
 		return fmt.Sprintf("tw%d", o.n)
+	case v06DL:
+		return "deadline:" + v06DLNames[o.n&3]
 	default:
 		return "sync"
 	}
 }
+
+var v06DLNames = []string{"read-past", "both-past", "read-soon", "both-soon"}
 
 func v06SizeClass(n int) string {
 	switch {
@@ -99,6 +104,9 @@ type v06ConnPlan struct {
 	dialFail      bool
 	msg           string
 	foWrite       int // fast open + dial failure: bytes written before the first Read
+	slowDial      bool // the outbound's dial is parked until the harness releases it
+	preDL         int  // fast open + slow dial: deadline op while the response cannot exist yet (-1 none)
+	preCW         int  // fast open + slow dial: client write while the dial is parked
 	segs          [][]v06Op
 	term          v06Term
 	termSeg       int
@@ -133,6 +141,16 @@ func (p *v06Plan) String() string {
 	}
 	for i, c := range p.conns {
 		fmt.Fprintf(&sb, " | c%d user-%d from seg %d", i, c.user, c.startSeg)
+		if c.slowDial {
+			fmt.Fprintf(&sb, " SLOWDIAL")
+			if c.preDL >= 0 && p.fastOpen {
+				fmt.Fprintf(&sb, "(while parked: deadline:%s, Read times out, cleared", v06DLNames[c.preDL&3])
+				if c.preCW > 0 {
+					fmt.Fprintf(&sb, ", cw%d", c.preCW)
+				}
+				sb.WriteString(")")
+			}
+		}
 		if c.dialFail {
 			fmt.Fprintf(&sb, " DIALFAIL msg=%dB foWrite=%d", len(c.msg), c.foWrite)
 			continue
@@ -170,6 +188,9 @@ func (p *v06Plan) fingerprint() string {
 	}
 	for _, c := range p.conns {
 		fmt.Fprintf(&sb, "|u%d s%d", c.user, c.startSeg)
+		if c.slowDial {
+			fmt.Fprintf(&sb, "D%d", c.preDL)
+		}
 		if c.dialFail {
 			fmt.Fprintf(&sb, "F%d", len(c.msg))
 			continue
@@ -182,6 +203,8 @@ func (p *v06Plan) fingerprint() string {
 					sb.WriteString("c" + v06SizeClass(o.n))
 				case v06TW:
 					sb.WriteString("t" + v06SizeClass(o.n))
+				case v06DL:
+					fmt.Fprintf(&sb, "d%d", o.n&3)
 				default:
 					sb.WriteString("y")
 				}
@@ -219,6 +242,12 @@ func (p *v06Plan) classes() []string {
 	perUser := map[int]int{}
 	for _, c := range p.conns {
 		perUser[c.user]++
+		if c.slowDial {
+			cl = append(cl, "conn:slowdial")
+			if p.fastOpen && c.preDL >= 0 {
+				cl = append(cl, "slowdial:read-times-out-before-response")
+			}
+		}
 		if c.dialFail {
 			cl = append(cl, "conn:dialfail")
 			switch {
@@ -239,7 +268,9 @@ func (p *v06Plan) classes() []string {
 		}
 		for _, ops := range c.segs {
 			for _, o := range ops {
-				if o.kind != v06Sync {
+				if o.kind == v06DL {
+					cl = append(cl, "op:deadline:"+v06DLNames[o.n&3])
+				} else if o.kind != v06Sync {
 					cl = append(cl, "chunk:"+v06SizeClass(o.n))
 				}
 			}
@@ -307,6 +338,14 @@ func v06GenPlan(rt *rapid.T) *v06Plan {
 		c.saltC = rapid.Uint64().Draw(rt, fmt.Sprintf("c%dSaltC", i))
 		c.saltT = rapid.Uint64().Draw(rt, fmt.Sprintf("c%dSaltT", i))
 		c.segs = make([][]v06Op, p.nSegs)
+		c.preDL = -1
+		if rapid.IntRange(0, 3).Draw(rt, fmt.Sprintf("c%dSlowDial", i)) == 3 {
+			c.slowDial = true
+			if p.fastOpen {
+				c.preDL = rapid.IntRange(-1, 3).Draw(rt, fmt.Sprintf("c%dPreDL", i))
+				c.preCW = rapid.SampledFrom([]int{0, 0, 1, 900, 40000}).Draw(rt, fmt.Sprintf("c%dPreCW", i))
+			}
+		}
 		if !vetoSafe && rapid.IntRange(0, 6).Draw(rt, fmt.Sprintf("c%dKind", i)) == 6 {
 			c.dialFail = true
 			c.msg = v06GenMsg(rt, fmt.Sprintf("c%dMsg", i))
@@ -344,7 +383,9 @@ func v06GenPlan(rt *rapid.T) *v06Plan {
 			nOps := rapid.IntRange(0, 7).Draw(rt, fmt.Sprintf("c%dSeg%dOps", i, s))
 			for k := 0; k < nOps; k++ {
 				nm := fmt.Sprintf("c%dSeg%dOp%d", i, s, k)
-				switch kind := rapid.IntRange(0, 6).Draw(rt, nm); kind {
+				switch kind := rapid.IntRange(0, 7).Draw(rt, nm); kind {
+				case 7:
+					c.segs[s] = append(c.segs[s], v06Op{v06DL, rapid.IntRange(0, 3).Draw(rt, nm+"DL")})
 				case 0, 1, 5:
 					c.segs[s] = append(c.segs[s], v06Op{v06CW, size(nm+"Size", false)})
 					c.chunksC++
@@ -441,11 +482,20 @@ func (r *v06Run) open(c *v06Conn, cp *v06ConnPlan) bool {
 	}()
 	var conn net.Conn
 	var err error
+	if cp.slowDial && !r.p.fastOpen {
+		// without fast open Client.TCP waits for the response: let the dial finish
+		if r.waitDialParked(c) {
+			r.releaseDial(c)
+		}
+	}
 	select {
 	case x := <-ch:
 		conn, err = x.conn, x.err
 	case <-time.After(v06WaitLong):
 		vInconclusive("C06: Client.TCP did not return in time for " + c.label)
+	}
+	if cp.slowDial {
+		defer r.releaseDial(c)
 	}
 	if cp.dialFail {
 		// S4
@@ -464,11 +514,27 @@ func (r *v06Run) open(c *v06Conn, cp *v06ConnPlan) bool {
 			_ = conn.Close()
 			return false
 		}
+		if cp.slowDial && cp.preDL >= 0 && r.waitDialParked(c) {
+			// the server is still dialling: no response exists, a Read under an expired deadline can only time out
+			r.setDeadline(conn, cp.preDL)
+			n, rerr := conn.Read(make([]byte, 4096))
+			var ne net.Error
+			if n != 0 || !(errors.As(rerr, &ne) && ne.Timeout()) {
+				w.mu.Lock()
+				w.failLocked("%s (fast open): a Read under an expired deadline, before the server had answered the request, returned n=%d err=%T %v instead of a timeout and no bytes", c.label, n, rerr, v06Short(fmt.Sprint(rerr)))
+				w.mu.Unlock()
+			}
+			_ = conn.SetDeadline(time.Time{})
+			w.mu.Lock()
+			w.evLocked("cliReadTimeout", c.label, int64(n), 0, "before the response existed; deadline cleared")
+			w.mu.Unlock()
+		}
 		if cp.foWrite > 0 {
 			buf := make([]byte, cp.foWrite)
 			v06Fill(buf, c.saltC, 0)
 			_, _ = conn.Write(buf) // may fail once the server has closed the stream; not part of the property
 		}
+		r.releaseDial(c)
 		_ = conn.SetReadDeadline(time.Now().Add(v06WaitLong))
 		n, rerr := conn.Read(make([]byte, 4096))
 		var ne net.Error
@@ -500,7 +566,90 @@ func (r *v06Run) open(c *v06Conn, cp *v06ConnPlan) bool {
 	w.mu.Unlock()
 	w.readers.Add(1)
 	go r.reader(c, conn, cp.readBuf)
+	if cp.slowDial && r.p.fastOpen && r.waitDialParked(c) {
+		// the reader is inside its first Read and the response cannot exist yet
+		if cp.preDL >= 0 && !r.dlOp(c, cp.preDL) {
+			return false
+		}
+		if cp.preCW > 0 && !r.step(c, v06Op{v06CW, cp.preCW}) {
+			return false
+		}
+	}
 	return true
+}
+
+// waitDialParked: true once the server is inside the parked Outbound.TCP of c.
+func (r *v06Run) waitDialParked(c *v06Conn) bool {
+	w := r.w
+	w.mu.Lock()
+	res := w.waitLocked(v06WaitLong, func() bool { return c.dialParked || c.u.vetoed })
+	ok := c.dialParked
+	state := w.stateLocked()
+	w.mu.Unlock()
+	if res == v06Timeout {
+		vInconclusive("C06: the server never dialled " + c.label + ": " + state)
+	}
+	return res == v06Ok && ok
+}
+
+func (r *v06Run) releaseDial(c *v06Conn) {
+	w := r.w
+	w.mu.Lock()
+	if !c.dialReleased {
+		c.dialReleased = true
+		w.evLocked("dialRelease", c.label, 0, 0, "")
+		w.cond.Broadcast()
+	}
+	w.mu.Unlock()
+}
+
+func (r *v06Run) setDeadline(conn net.Conn, variant int) {
+	t := time.Now().Add(-time.Second)
+	if variant&2 != 0 {
+		t = time.Now().Add(3 * time.Millisecond)
+	}
+	if variant&1 != 0 {
+		_ = conn.SetDeadline(t)
+	} else {
+		_ = conn.SetReadDeadline(t)
+	}
+	if variant&2 != 0 {
+		time.Sleep(4 * time.Millisecond) // only to get past the deadline; nothing is concluded from elapsed time
+	}
+}
+
+// dlOp: the application sets a read deadline (in the past / shortly ahead), a
+// Read of the client conn times out, the deadline is cleared again. Bytes that
+// arrive with or around the timeout are ordinary receipts (S1/L1 apply).
+func (r *v06Run) dlOp(c *v06Conn, variant int) bool {
+	w := r.w
+	w.mu.Lock()
+	if w.fail != "" || c.u.vetoed || c.readerDone || c.conn == nil {
+		ok := w.fail == "" && !c.u.vetoed
+		w.mu.Unlock()
+		return ok
+	}
+	t0 := c.timeouts
+	conn := c.conn
+	w.evLocked("cliDeadline", c.label, 0, 0, v06DLNames[variant&3])
+	w.mu.Unlock()
+	r.st.Class("deadline-op:executed")
+	r.setDeadline(conn, variant)
+	w.mu.Lock()
+	res := w.waitLocked(v06WaitLong, func() bool { return c.timeouts > t0 || c.readerDone || c.u.vetoed })
+	state := w.stateLocked()
+	w.mu.Unlock()
+	_ = conn.SetDeadline(time.Time{})
+	w.mu.Lock()
+	c.dlGen++
+	w.evLocked("cliDeadline", c.label, 0, 0, "cleared")
+	w.cond.Broadcast()
+	vetoed := c.u.vetoed
+	w.mu.Unlock()
+	if res == v06Timeout {
+		vInconclusive("C06: a Read under an expired deadline did not return for " + c.label + ": " + state)
+	}
+	return res == v06Ok && !vetoed
 }
 
 func v06IsDialErrAny(err error) bool {
@@ -538,6 +687,23 @@ func (r *v06Run) reader(c *v06Conn, conn net.Conn, bufSize int) {
 			}
 			w.cond.Broadcast()
 			w.mu.Unlock()
+		}
+		var ne net.Error
+		if err != nil && errors.As(err, &ne) && ne.Timeout() {
+			w.mu.Lock()
+			c.timeouts++
+			gen := c.dlGen
+			w.evLocked("cliReadTimeout", c.label, int64(n), off, "")
+			w.cond.Broadcast()
+			// wait until the application (the harness op) cleared the deadline
+			for c.dlGen == gen && !w.ended && w.fail == "" {
+				w.cond.Wait()
+			}
+			stop := w.fail != "" && c.dlGen == gen
+			w.mu.Unlock()
+			if !stop {
+				continue
+			}
 		}
 		if err != nil {
 			w.mu.Lock()
@@ -588,6 +754,17 @@ func (r *v06Run) step(c *v06Conn, op v06Op) bool {
 		w.evLocked("tgtWrite", c.label, int64(op.n), c.tSent, "")
 		w.cond.Broadcast()
 		return true
+	case v06DL:
+		// with fast open the response must have been consumed (a payload byte was read): a deadline that
+		// expires in the middle of the response frame is outside what the statement quantifies over
+		w.mu.Lock()
+		skip := r.p.fastOpen && c.cRecv == 0
+		w.mu.Unlock()
+		if skip {
+			r.st.Class("deadline-op:skipped(fast open, nothing read yet)")
+			return true
+		}
+		return r.dlOp(c, op.n)
 	default:
 		return r.syncConn(c, "sync op")
 	}
@@ -856,6 +1033,7 @@ func v06RunPlan(p *v06Plan, st *vStats) string {
 		c := w.addConn(w.users[cp.user], i, cp.saltC, cp.saltT)
 		c.dialFail, c.dialMsg = cp.dialFail, cp.msg
 		c.maxRead, c.errWithData = cp.maxRead, cp.errWithData
+		c.slowDial = cp.slowDial
 		r.conns = append(r.conns, c)
 		r.plans = append(r.plans, cp)
 	}
